@@ -140,7 +140,11 @@ def typed_matches(ty: Ty, x, depth=0, strict=False):
         except Exception:
             return False
     if k == 'tagged': return any(type(x) is py_class(v) for v in ty.a)
-    if k == 'ndarray': return type(x).__name__ == 'ndarray'
+    if k == 'ndarray':
+        if type(x).__name__ != 'ndarray':
+            return False
+        want = {'int': 'iu', 'float': 'f', 'complex': 'c', 'bool': 'b', 'str': 'U'}.get(ty.x.get('dtype'))
+        return want is None or x.dtype.kind in want
     if k == 'vol':
         if type(x).__name__ != 'ValueOrList':
             return False
